@@ -257,6 +257,13 @@ def reader_factor_agreement(ck, prog, rule):
     if set(found) != want:
         ck.unk(rule, rb.where, "factor sites", "all five uses of the real-to-complex factor are found", f"found {sorted(found)}")
         return
-    ck.same(rule, rb.where, "real-sample factor: " + ", ".join(f"{k_} = {v}" for k_, v in sorted(found.items())),
-            "seek(k*offset), read(k*n), sample_rate/k, length//k and the decimation of real_to_complex use one and the same k == 2",
-            all(v == 2 for v in found.values()), found=str({k_: str(v) for k_, v in found.items()}), nontrivial=True)
+    from .. import terms as _T
+    verdicts = {k_: (True if v == 2 else _T.equal(sp.sympify(v), sp.Integer(2), seed=ck.run.seed,
+                                                   constraints=lambda pt: {s_: (abs(x_) + 1 if s_.is_integer else x_) for s_, x_ in pt.items()}).equal)
+                for k_, v in found.items()}
+    what = "seek(k*offset), read(k*n), sample_rate/k, length//k and the decimation of real_to_complex use one and the same k == 2"
+    if any(v is False for v in verdicts.values()) or all(v is True for v in verdicts.values()):
+        ck.same(rule, rb.where, "real-sample factor: " + ", ".join(f"{k_} = {v}" for k_, v in sorted(found.items())), what,
+                all(v is True for v in verdicts.values()), found=str({k_: str(v) for k_, v in found.items()}), nontrivial=True)
+    else:
+        ck.unk(rule, rb.where, "real-sample factor", what, f"not decided: {[k_ for k_, v in verdicts.items() if v is None]}")
